@@ -617,6 +617,7 @@ fc_statements = [
         declare=[
             "type({F_array_type}) {c_var_context}",
         ],
+        f_helper="array_context",
         f_module=dict(iso_c_binding=["C_PTR"]),
         arg_c_call=["{c_var_context}"],
         # This post_call block will set need_wrapper=True
